@@ -1388,3 +1388,68 @@ void ops_concurrent_case(const char* key, const char* const* names, int nnames, 
   sample("%d entry points, each run by %d threads at once: %" PRIu64 " calls equal to their sequential re-run", nnames, T, calls);
   case_end(calls > 0);
 }
+
+// ---------------------------------------------------------------- fresh-process reference ("pristine server")
+// A helper process forked at the very start of the harness process - before the prelude and before the workload has
+// called anything - answers requests "what does catalogue entry o return for (N, dispatch, seed)?" by forking a child
+// of its own pristine state for every request: the child creates the objects, makes that one call and reports the
+// output hash. The answer is what the call returns when NOTHING was called before it in the process; the workload
+// compares it with what the same call returns after its whole history.
+#include <sys/wait.h>
+#include <unistd.h>
+static int pr_req[2] = {-1, -1}, pr_rsp[2] = {-1, -1};
+static pid_t pr_pid;
+typedef struct { int32_t op, native, prefill; uint32_t mis; uint64_t N, seed; } pr_req_t;
+typedef struct { uint64_t hash; int32_t status; int32_t pad; } pr_rsp_t;  // status 0 ok, 1 skipped, 2 the fresh call died
+void pristine_start(void) {
+  if (pipe(pr_req) || pipe(pr_rsp)) return;
+  fflush(0);
+  pr_pid = fork();
+  if (pr_pid < 0) { pr_pid = 0; return; }
+  if (pr_pid == 0) {
+    close(pr_req[1]);
+    close(pr_rsp[0]);
+    pr_req_t q;
+    while (read(pr_req[0], &q, sizeof q) == (ssize_t)sizeof q) {
+      pr_rsp_t a = {0, 2, 0};
+      int pp[2];
+      if (pipe(pp)) break;
+      pid_t c = fork();
+      if (c == 0) {
+        close(pp[0]);
+        env_t* e = env_create(q.N, q.native);
+        opres_t r;
+        op_exec(&OPS[q.op], e, q.seed, q.prefill, q.mis, 0, &r);
+        pr_rsp_t b = {r.out_hash, r.skipped ? 1 : 0, 0};
+        if (write(pp[1], &b, sizeof b) != (ssize_t)sizeof b) _exit(3);
+        _exit(0);
+      }
+      close(pp[1]);
+      pr_rsp_t b;
+      if (c > 0 && read(pp[0], &b, sizeof b) == (ssize_t)sizeof b) a = b;
+      close(pp[0]);
+      if (c > 0) waitpid(c, 0, 0);
+      if (write(pr_rsp[1], &a, sizeof a) != (ssize_t)sizeof a) break;
+    }
+    _exit(0);
+  }
+  close(pr_req[0]);
+  close(pr_rsp[1]);
+}
+int pristine_query(int op, uint64_t N, int native, uint64_t seed, int prefill, unsigned mis, uint64_t* hash) {
+  if (pr_pid <= 0) return -1;
+  pr_req_t q = {op, native, prefill, mis, N, seed};
+  pr_rsp_t a;
+  if (write(pr_req[1], &q, sizeof q) != (ssize_t)sizeof q) return -1;
+  if (read(pr_rsp[0], &a, sizeof a) != (ssize_t)sizeof a) return -1;
+  *hash = a.hash;
+  return a.status;
+}
+void pristine_stop(void) {
+  if (pr_pid > 0) {
+    close(pr_req[1]);
+    close(pr_rsp[0]);
+    waitpid(pr_pid, 0, 0);
+    pr_pid = 0;
+  }
+}
